@@ -83,7 +83,8 @@ def _dist():
     ab = st.one_of(loguniform(-3, 3), loguniform(-3, 3), loguniform(-7, -3),
                    st.sampled_from([1.0, 1.0, 2.0, 20.0, 1e-3, 0.5, 1000.0]))
     rel = st.tuples(st.sampled_from([-1.0, 1.0]),
-                    loguniform(-7, 0)).map(lambda t: t[0] * t[1])
+                    st.one_of(loguniform(-7, 0), loguniform(-7, 0),
+                              loguniform(-13, -7))).map(lambda t: t[0] * t[1])
     return st.one_of(ab.map(lambda d: ["abs", d]), ab.map(lambda d: ["abs", d]),
                      rel.map(lambda u: ["rel", u]))
 
@@ -165,8 +166,9 @@ def _pathloss_strategy(tier):
                      d=draw(dists),
                      form=draw(forms_gen if model in (
                          "general", "freespace", "3gpp1") else forms_any),
-                     int_scalars=draw(bools))
+                     int_scalars=draw(bools), rmw=draw(bools))
             if model == "metis":
+                s["omit_kw"] = draw(bools)
                 n = len(s["d"])
                 kind = draw(walls_few)      # 0: one int, 1: any, 2: few walls
                 if kind == 0:
@@ -336,13 +338,36 @@ def _query(ctx, P, obj, p, policy, model, step, nset):
     # ---- scalar queries
     scal = [None] * n
     for i in range(n):
-        if cls[i] == "tie":
-            continue
         d = ds[i]
         if step["int_scalars"] and d == int(d) and d < 1e15:
             d = int(d)
         kw = kw_of(wl[i])
+        if step.get("omit_kw") and model == "metis" and wl[i] == 0:
+            # line of sight is the documented default of num_walls
+            kw = {}
+            ctx.label("metis:num_walls_default")
         t = dict(tags, form="scalar")
+        if cls[i] == "tie":
+            # the model loss is within 1e-9 dB of 0: this check cannot tell
+            # on which side it is, but whatever the library decides, it never
+            # returns a negative loss / a linear value above 1
+            try:
+                r = obj.calc_path_loss_dB(d, **kw)
+                lin = obj.calc_path_loss(d, **kw)
+            except RuntimeError:
+                if policy:
+                    raise Violation(
+                        "small_distance_raised", "calc_path_loss(_dB)(%r) "
+                        "raised although handle_small_distances_bool is "
+                        "True (model loss %.3e dB)" % (d, PLm[i]), t)
+                continue
+            if not (float(r) >= 0.0 and 0.0 < float(lin) <= 1.0):
+                raise Violation("linear_range", "d=%r (model loss %.3e dB): "
+                                "%r dB, linear %r" % (d, PLm[i], r, lin), t)
+            ctx.close("dB_vs_documented_formula", abs(float(r) - PLm[i]),
+                      ftol(PLm[i]), "%s d=%r near the 0 dB crossing" %
+                      (model, d), t)
+            continue
         if cls[i] == "neg":
             if not policy:
                 _expect_raise(lambda: obj.calc_path_loss_dB(d, **kw),
@@ -570,6 +595,20 @@ def _check_pathloss(case, ctx):
                     p[name] = value
                     nset += 1
                     ctx.label("set:" + name)
+            # what the public attributes report is what was set, and
+            # writing a value read back changes nothing
+            for nm, attr in _ATTR.items():
+                if nm == "policy" or nm not in p or not hasattr(obj, attr):
+                    continue
+                got = getattr(obj, attr)
+                if got != p[nm]:
+                    raise Violation("attribute_readback", "%s.%s reads %r, "
+                                    "%r was set" % (model, attr, got, p[nm]),
+                                    dict(model=model, attr=attr))
+                if step.get("rmw"):
+                    setattr(obj, attr, got)
+            if step.get("rmw"):
+                ctx.label("read_modify_write")
             if model == "hata" and p["area"] == "large city" and \
                     p["fc"] == 300.0:
                 ctx.label("tie_excluded_fc300")   # docs: '<300' / '>300'
@@ -615,6 +654,18 @@ def _check_antenna(case, ctx):
         ref = G * 10.0 ** (-min(12.0 * (a / th3) ** 2, Am) / 10.0)
         ctx.close("antenna_pattern_formula", _rel(g, ref), 1e-12,
                   "gain(%r)=%r, 3GPP 25.996 pattern %r" % (a, g, ref), tags)
+    if case["int_angles"] and all(a == int(a) for a in angles):
+        # whole-degree angles handed over as an integer-dtype array
+        ctx.label("antenna:int_angle_array")
+        ai = np.array([int(a) for a in angles], dtype=np.int64)
+        gi = np.asarray(ant.get_antenna_gain(ai), dtype=float)
+        if gi.shape != (len(angles),):
+            raise Violation("result_shape", "get_antenna_gain(int array of "
+                            "%d) has shape %r" % (len(angles), gi.shape),
+                            tags)
+        for a, g, ga in zip(angles, gs, gi):
+            ctx.close("array_vs_scalar", abs(g - ga) / g0, 1e-12,
+                      "angle %r: int array %r scalar %r" % (a, ga, g), tags)
     ang = np.array(angles, dtype=float)
     arr = np.asarray(ant.get_antenna_gain(ang), dtype=float)
     # the caller's angle array is used again (symmetry check, next antenna):
